@@ -908,6 +908,7 @@ type mixOpts struct {
 	pInTxRead int      // percent chance of a read after each operation inside a write tx
 	pNoCommit int      // percent of transactions that end without a successful commit
 	pMerge    int      // percent chance of a Merge after a transaction
+	mergeFail bool     // Merge (more often than not) right after a commit that failed
 	pROMut    int      // percent chance that a read-only tx calls mutating APIs
 	faults    bool     // inject I/O faults into commits
 	buckets   []string // adversarial bucket names used for every structure (C04)
@@ -1085,6 +1086,7 @@ func (g *gen) histMixed(o mixOpts) {
 	for i := range big {
 		big[i] = 'x'
 	}
+	failedNow := false
 	for i := 0; i < g.c.Steps; i++ {
 		nops := 1
 		if g.r.Intn(100) < o.pMulti {
@@ -1246,7 +1248,9 @@ func (g *gen) histMixed(o mixOpts) {
 				}
 				faultAt(g.r.Intn(2*nops+2), partial, fate == "syncfault")
 				obs.ResetCounters()
-				t.Commit(func() int { return obs.DatWrites })
+				if t.Commit(func() int { return obs.DatWrites }) != nil {
+					failedNow = true
+				}
 				obs.Fault = nil
 			case "sweep":
 				// C12, exhaustive over the fault position: the same transaction is
@@ -1301,7 +1305,12 @@ func (g *gen) histMixed(o mixOpts) {
 		if g.r.Intn(6) == 0 {
 			g.s.Shadow(dir + "-shadow")
 		}
-		if g.r.Intn(100) < o.pMerge {
+		mergeNow := g.r.Intn(100) < o.pMerge
+		if o.mergeFail && failedNow && g.r.Intn(5) < 3 {
+			mergeNow = true
+		}
+		failedNow = false
+		if mergeNow {
 			g.s.Obs()
 			nm := 1 + g.r.Intn(2) // possibly twice in a row
 			for m := 0; m < nm; m++ {
@@ -1472,7 +1481,7 @@ func main() {
 			g.histMixed(mixOpts{kinds: []string{"kv", "list", "set", "zset"}, pMulti: 60, pNoCommit: 45, pROMut: 60, faults: true})
 		case "failmerge": // C12 across Merge: what a failed transaction left in the files must stay without effect when Merge rewrites them
 			g.noSMove = true
-			g.histMixed(mixOpts{kinds: []string{"kv", "set", "zset"}, pMulti: 70, pNoCommit: 40, pROMut: 30, pMerge: 15, faults: true})
+			g.histMixed(mixOpts{kinds: []string{"kv", "set", "zset"}, pMulti: 70, pNoCommit: 40, pROMut: 30, pMerge: 10, faults: true, mergeFail: true})
 		case "failkv":
 			g.histMixed(mixOpts{kinds: []string{"kv"}, pMulti: 60, pNoCommit: 45, pROMut: 60, faults: true})
 		case "merge": // C15
